@@ -76,7 +76,14 @@ func (c *RawHTTPResponder) GetHeaders() http.Header {
 func (c *RawHTTPResponder) writeResponse() error {
 	// If Content-Length is unknown, we must either use chunked encoding or close the connection.
 	if c.response.ContentLength < 0 {
-		c.response.TransferEncoding = []string{"chunked"}
+		status := c.response.StatusCode
+		if status < 200 || status == http.StatusNoContent || status == http.StatusNotModified {
+			// These answers never have a body: a chunked terminator would be read as the start of the next response
+			c.response.Body = http.NoBody
+			c.response.ContentLength = 0
+		} else {
+			c.response.TransferEncoding = []string{"chunked"}
+		}
 	}
 
 	if err := c.response.Write(c.writer); err != nil {
